@@ -603,6 +603,21 @@ def run(ctx):
             ok_l.append(ok)
             meta.append(dict(m, parse_error=err, calls=r_.calls))
         ctx.case(('lashtml', t), True)
+        if ok:
+            # the data carried: every description / string value of the LAS file that XML can represent is the text of
+            # some cell of the document, unchanged
+            try:
+                texts = [p[1] for p in xmltrace.parse_tree(doc) if p[0] == 'chars']
+            except Exception:
+                texts = None
+            if texts is not None:
+                wanted = [w[3] for w in content['well']] + [c[3] for c in content['curves']] + [x for p_ in content['params'] for x in (p_[2], p_[3])]
+                wanted.append(content['well'][4][2])
+                for wv in wanted:
+                    w2 = wv.strip()
+                    if w2 and xmltrace.representable(w2) and not any(w2 in tx for tx in texts):
+                        ctx.fail('LAS HTML: the LAS text %r does not appear in the document' % w2, dict(m, doc=doc[:4000]), sig=dict(kind='las-html-content'))
+                        break
         os.remove(pin)
         os.remove(pout)
     real_writers_rp66_lis(ctx, rng, traces, parsed_l, ok_l, meta)
